@@ -57,21 +57,26 @@ def spec_tabs(o):
     return out
 
 
-def spec_next_newline(o):
+def spec_next_newline(o, relook=True):
+    """relook: the scanner asks once more for the byte that ended its scan (today's code does; it need not)"""
     out = {("entry", "-", "look@" + lbl(o))}
     k = o
     while not sat(k):
         s = "look@" + lbl(k)
         out.add((s, g(ALL & ~mask_of([LF])), "look@" + lbl(k + 1)))
-        out.add((s, g(mask_of([LF]), True), s))  # the re-look at the same offset (same answer)
+        if relook:
+            out.add((s, g(mask_of([LF]), True), s))  # the re-look at the same offset (same answer)
         out.add((s, g(mask_of([LF])), "ret:" + lbl(k + 1)))
         out.add((s, g(0, True), "ret:" + lbl(k)))
         k += 1
     s = "look@" + lbl(k)
     # beyond the tracked offsets the advance edge and the re-look edge fall on the same node
-    out.add((s, g(ALL, True), s))
+    out.add((s, g(ALL, True) if relook else g(ALL & ~mask_of([LF])), s))
     out.add((s, g(mask_of([LF]), True), "ret:" + lbl(k)))
     return out
+
+
+spec_next_newline.alternatives = [lambda o: spec_next_newline(o, False)]
 
 
 def spec_fixed(o, pat):
@@ -89,7 +94,18 @@ def spec_fixed(o, pat):
     return out
 
 
-def compare(rule, name, case, got, want, fn):
+def _norm_rows(rows):
+    """a second look at the *same exact* offset asks for nothing new (the byte is buffered, or the end is known): such
+    self-loops are dropped on both sides, so a scanner may or may not re-request the byte that ended its scan"""
+    return set(r for r in rows if not (r[0] == r[2] and r[0].startswith("look@") and ">=" not in r[0]))
+
+
+def compare(rule, name, case, got, want, fn, alternatives=()):
+    got, want = _norm_rows(got), _norm_rows(want)
+    for alt in alternatives:
+        if _norm_rows(alt) == got:
+            want = got  # an equally documented way of doing the same (reported against the first form otherwise)
+            break
     for row in sorted(want):
         rule.check(
             row in got,
@@ -147,7 +163,7 @@ def run(ctx):
             fn = facts.fn(fid)
             got, eng = scan.behaviour(facts, scan.root_key(facts, fid), (TOP, ("i", o)))
             nconf += eng.stats["configs"]
-            compare(r3, h, "offset=%d" % o, got, spec(o), fn)
+            compare(r3, h, "offset=%d" % o, got, spec(o), fn, [a(o) for a in getattr(spec, "alternatives", [])])
         for pat in (b"", b"a", b"ab", b"aa"):
             fid = T + "fixed"
             fn = facts.fn(fid)
